@@ -107,6 +107,8 @@ def state_pattern(name: str, shape, margin: int, seed: int = 0) -> np.ndarray:
         out[inner] = v[inner]
     elif name == "generic":
         out[inner] = _generic(shape, seed)[inner]
+    elif name == "zero":
+        pass
     else:
         raise KeyError(name)
     if out[inner].size == 0:
@@ -114,7 +116,7 @@ def state_pattern(name: str, shape, margin: int, seed: int = 0) -> np.ndarray:
     return out
 
 
-STATE_PATTERNS = ["generic", "impulse", "impulse-edge", "bump", "checker"]
+STATE_PATTERNS = ["generic", "impulse", "impulse-edge", "bump", "checker", "single-component"]
 
 
 def velocity_pattern(name: str, dim: int, shape, seed: int = 0) -> np.ndarray:
@@ -142,12 +144,15 @@ def velocity_pattern(name: str, dim: int, shape, seed: int = 0) -> np.ndarray:
         for k in range(dim):
             g = _generic(shape, seed + 3 * k)
             v[k] = np.where(np.abs(g) < 0.05, 0.3, g)
+    elif name == "single-component":  # only the last component is non-zero, the others exactly zero
+        g = _generic(shape, seed + 2)
+        v[dim - 1] = np.where(np.abs(g) < 0.05, 0.3, g)
     else:
         raise KeyError(name)
     return v
 
 
-VELOCITY_PATTERNS = ["generic", "uniform+", "uniform-", "shear", "alternating"]
+VELOCITY_PATTERNS = ["generic", "uniform+", "uniform-", "shear", "alternating", "single-component", "zero"]
 
 
 def forcing_pattern(name: str, dim: int, shape, margin: int, seed: int = 0) -> np.ndarray:
@@ -165,12 +170,17 @@ def forcing_pattern(name: str, dim: int, shape, margin: int, seed: int = 0) -> n
     elif name == "generic":
         for k in range(dim):
             f[k] = state_pattern("generic", shape, margin, seed + 11 * k)
+    elif name == "single-component":  # planar / uniaxial forcing: one component identically zero ... all but one
+        f[0] = state_pattern("generic", shape, margin, seed + 4)
+    elif name == "planar":
+        for k in range(dim - 1):
+            f[k] = state_pattern("generic", shape, margin, seed + 11 * k)
     else:
         raise KeyError(name)
     return f
 
 
-FORCING_PATTERNS = ["generic", "impulse-pair", "dipole"]
+FORCING_PATTERNS = ["generic", "impulse-pair", "dipole", "single-component", "planar", "none"]
 
 
 def load_state(sim, cfg, state="generic", velocity="generic", forcing="generic", margin=None, seed=0):
@@ -183,10 +193,13 @@ def load_state(sim, cfg, state="generic", velocity="generic", forcing="generic",
     real_t = np.dtype(c["dtype"]).type
     p = primary(sim)
     if p.ndim == d:
-        p[...] = state_pattern(state, shape, margin, seed).astype(real_t)
+        p[...] = state_pattern("generic" if state == "single-component" else state, shape, margin, seed).astype(real_t)
     else:
         for k in range(p.shape[0]):
-            p[k] = (state_pattern(state, shape, margin, seed + 5 * k) * (1.0 - 0.4 * k)).astype(real_t)
+            if state == "single-component" and k > 0:
+                p[k] = 0
+            else:
+                p[k] = (state_pattern("generic" if state == "single-component" else state, shape, margin, seed + 5 * k) * (1.0 - 0.4 * k)).astype(real_t)
     sim.velocity_field[...] = velocity_pattern(velocity, d, shape, seed).astype(real_t)
     if is_ns(c["kind"]) and c["forcing"]:
         sim.eul_grid_forcing_field[...] = forcing_pattern(forcing, d, shape, margin, seed).astype(real_t)
